@@ -97,11 +97,13 @@ theorem complete_message (m : Message) (e rest : Bytes) (h : EncMessage m e) :
 
 /-! ### 3. non-vacuity: a concrete file and a concrete encoding -/
 
+def sampleOpenRes : OpenResponse :=
+  { codepage := none, clientId := none, reqFileId := [0xaa, 0xbb], serverId := [0x0a, 0x0b, 0x0c],
+    refTime := some (.secIndex 4660), smlVersion := none }
+
 def sampleOpen : Message :=
   { transactionId := [1, 2, 3, 4], groupNo := 0, abortOnError := 0,
-    messageBody := .openResponse
-      { codepage := none, clientId := none, reqFileId := [0xaa, 0xbb], serverId := [0x0a, 0x0b, 0x0c],
-        refTime := some (.secIndex 4660), smlVersion := none } }
+    messageBody := .openResponse sampleOpenRes }
 
 /-- status word sent in 2 bytes, scaler -1, negative I16 sent in 2 bytes -/
 def sampleEntry1 : ListEntry :=
@@ -119,14 +121,16 @@ def sampleEntry3 : ListEntry :=
   { objName := [0xcc], status := none, valTime := none, unit := none, scaler := none,
     value := .list (.time (.secIndex 7)), valueSignature := none }
 
+def sampleListRes : GetListResponse :=
+  { clientId := none, serverId := [0x0a, 0x0b, 0x0c],
+    listName := some [1, 0, 0x62, 0x0a, 0xff, 0xff],
+    actSensorTime := some (.secIndex 66051),
+    valList := [sampleEntry1, sampleEntry2, sampleEntry3],
+    listSignature := none, actGatewayTime := none }
+
 def sampleList : Message :=
   { transactionId := [1, 2, 3, 5], groupNo := 0, abortOnError := 0,
-    messageBody := .getListResponse
-      { clientId := none, serverId := [0x0a, 0x0b, 0x0c],
-        listName := some [1, 0, 0x62, 0x0a, 0xff, 0xff],
-        actSensorTime := some (.secIndex 66051),
-        valList := [sampleEntry1, sampleEntry2, sampleEntry3],
-        listSignature := none, actGatewayTime := none } }
+    messageBody := .getListResponse sampleListRes }
 
 def sampleClose : Message :=
   { transactionId := [1, 2, 3, 6], groupNo := 0, abortOnError := 0,
@@ -160,30 +164,151 @@ def closeBytes : Bytes :=
     TLF `80 06`, group number in the 2-byte-TLF form `e0 03` -/
 def closeBytes' : Bytes :=
   [0xf0, 0x06, 0x80, 0x06, 1, 2, 3, 6, 0xe0, 0x03, 0, 0x62, 0, 0x72, 0x63, 0x02, 0x01, 0x71, 0x01,
-   0x63, 0xc3, 0xe5, 0x00]
+   0x63, 0x0c, 0xc3, 0x00]
 
 def sampleBytes : Bytes := openBytes ++ listBytes ++ closeBytes
 
-example : EncMessage sampleOpen openBytes := by
+/-! The encodings are proved valid from the grammar alone (`Gram.mk_*` are the introduction rules
+    of the relations, i.e. unfoldings of their definitions); the parsers are not involved. -/
+
+theorem sample_zero : EncUnsigned 1 0 [0x62, 0] :=
+  Gram.mk_unsigned 1 0 [0x62] [0] rfl (by decide) (by decide) (by decide)
+
+theorem sample_one : EncUnsigned 1 1 [0x62, 0x01] :=
+  Gram.mk_unsigned 1 1 [0x62] [1] rfl (by decide) (by decide) (by decide)
+
+theorem sample_server : EncOctet [0x0a, 0x0b, 0x0c] [0x04, 0x0a, 0x0b, 0x0c] :=
+  Gram.mk_octet [0x04] _ rfl
+
+theorem sample_open_enc : EncMessage sampleOpen openBytes := by
   have o1 : EncOctet [1, 2, 3, 4] [0x05, 1, 2, 3, 4] := Gram.mk_octet [0x05] _ rfl
-  have z : EncUnsigned 1 0 [0x62, 0] := Gram.mk_unsigned 1 0 [0x62] [0] rfl (by decide) (by decide) (by decide)
   have tag : EncUnsigned 4 0x0101 [0x63, 0x01, 0x01] :=
     Gram.mk_unsigned 4 _ [0x63] [0x01, 0x01] rfl (by decide) (by decide) (by decide)
   have rq : EncOctet [0xaa, 0xbb] [0x03, 0xaa, 0xbb] := Gram.mk_octet [0x03] _ rfl
-  have sv : EncOctet [0x0a, 0x0b, 0x0c] [0x04, 0x0a, 0x0b, 0x0c] := Gram.mk_octet [0x04] _ rfl
-  have one : EncUnsigned 1 1 [0x62, 0x01] :=
-    Gram.mk_unsigned 1 1 [0x62] [1] rfl (by decide) (by decide) (by decide)
   have secs : EncUnsigned 4 4660 [0x65, 0, 0, 0x12, 0x34] :=
     Gram.mk_unsigned 4 _ [0x65] [0, 0, 0x12, 0x34] rfl (by decide) (by decide) (by decide)
   have tm : EncTime (.secIndex 4660) [0x72, 0x62, 0x01, 0x65, 0, 0, 0x12, 0x34] :=
-    Gram.mk_time_list [0x72] _ _ _ rfl one secs
-  have body : EncOpenResponse _ _ :=
-    Gram.mk_openResponse (x := { codepage := none, clientId := none, reqFileId := [0xaa, 0xbb],
-        serverId := [0x0a, 0x0b, 0x0c], refTime := some (.secIndex 4660), smlVersion := none })
-      (tl := [0x76]) rfl (Gram.mk_none _) (Gram.mk_none _) rq sv
+    Gram.mk_time_list [0x72] _ _ _ rfl sample_one secs
+  have body : EncOpenResponse sampleOpenRes _ :=
+    Gram.mk_openResponse (tl := [0x76]) rfl (Gram.mk_none _) (Gram.mk_none _) rq sample_server
       (Gram.mk_some tm (by decide)) (Gram.mk_none _)
   have head : EncMessageHead sampleOpen _ :=
-    Gram.mk_messageHead (tl := [0x76]) rfl o1 z z (Gram.mk_body_open (tl := [0x72]) rfl tag body)
+    Gram.mk_messageHead (tl := [0x76]) rfl o1 sample_zero sample_zero
+      (Gram.mk_body_open (tl := [0x72]) rfl tag body)
   exact Gram.mk_message head (Gram.mk_crc _ 0xa4 0xeb (by decide +kernel))
+
+/-- status in 2 bytes (class 2), scaler -1, value: negative I16 sent in 2 bytes -/
+theorem sample_entry1_enc : EncListEntry sampleEntry1
+    [0x77, 0x07, 1, 0, 1, 8, 0, 0xff, 0x63, 0x01, 0x82, 0x01, 0x62, 0x1e, 0x52, 0xff,
+     0x53, 0xff, 0xfe, 0x01] := by
+  have nm : EncOctet [1, 0, 1, 8, 0, 0xff] [0x07, 1, 0, 1, 8, 0, 0xff] := Gram.mk_octet [0x07] _ rfl
+  have st : EncStatus (.status 2 386) [0x63, 0x01, 0x82] :=
+    Gram.mk_status 2 386 [0x63] [0x01, 0x82] rfl (by decide) (by decide)
+      (Gram.widthClass_narrow 2 (by decide)) (by decide)
+  have un : EncUnsigned 1 30 [0x62, 0x1e] :=
+    Gram.mk_unsigned 1 30 [0x62] [0x1e] rfl (by decide) (by decide) (by decide)
+  have sc : EncSigned 1 (-1) [0x52, 0xff] :=
+    Gram.mk_signed 1 (-1) [0x52] [0xff] rfl (by decide) (by decide) (by decide)
+  have vl : EncValue (.int 2 (-2)) [0x53, 0xff, 0xfe] :=
+    Gram.mk_value_int 2 (-2) [0x53] [0xff, 0xfe] rfl (by decide) (by decide)
+      (Gram.widthClass_narrow 2 (by decide)) (by decide)
+  exact Gram.mk_listEntry (x := sampleEntry1) (tl := [0x77]) rfl nm (Gram.mk_some st (by decide))
+    (Gram.mk_none _) (Gram.mk_some un (by decide)) (Gram.mk_some sc (by decide)) vl (Gram.mk_none _)
+
+/-- name behind the 2-byte TLF `80 04`, standard time, U32 sent in 3 bytes (class 4), present empty
+    signature behind the non-minimal TLF `80 02` -/
+theorem sample_entry2_enc : EncListEntry sampleEntry2
+    [0x77, 0x80, 0x04, 0xaa, 0xbb, 0x01, 0x72, 0x62, 0x01, 0x65, 0, 0, 0, 0x2a, 0x01, 0x01,
+     0x64, 0x01, 0, 0, 0x80, 0x02] := by
+  have nm : EncOctet [0xaa, 0xbb] [0x80, 0x04, 0xaa, 0xbb] := Gram.mk_octet [0x80, 0x04] _ rfl
+  have secs : EncUnsigned 4 42 [0x65, 0, 0, 0, 0x2a] :=
+    Gram.mk_unsigned 4 _ [0x65] [0, 0, 0, 0x2a] rfl (by decide) (by decide) (by decide)
+  have tm : EncTime (.secIndex 42) [0x72, 0x62, 0x01, 0x65, 0, 0, 0, 0x2a] :=
+    Gram.mk_time_list [0x72] _ _ _ rfl sample_one secs
+  have vl : EncValue (.uns 4 65536) [0x64, 0x01, 0, 0] :=
+    Gram.mk_value_uns 4 65536 [0x64] [0x01, 0, 0] rfl (by decide) (by decide)
+      (Gram.widthClass_narrow 3 (by decide)) (by decide)
+  have sg : EncOctet [] [0x80, 0x02] := Gram.mk_octet [0x80, 0x02] [] rfl
+  exact Gram.mk_listEntry (x := sampleEntry2) (tl := [0x77]) rfl nm (Gram.mk_none _)
+    (Gram.mk_some tm (by decide)) (Gram.mk_none _) (Gram.mk_none _) vl (Gram.mk_some sg (by decide))
+
+/-- value = SML_ListType / time in the vendor-workaround encoding `65 xx xx xx xx` -/
+theorem sample_entry3_enc : EncListEntry sampleEntry3
+    [0x77, 0x02, 0xcc, 0x01, 0x01, 0x01, 0x01, 0x72, 0x62, 0x01, 0x65, 0, 0, 0, 7, 0x01] := by
+  have nm : EncOctet [0xcc] [0x02, 0xcc] := Gram.mk_octet [0x02] _ rfl
+  have tm : EncTime (.secIndex 7) [0x65, 0, 0, 0, 7] :=
+    Gram.mk_time_workaround 7 [0x65] [0, 0, 0, 7] rfl rfl (by decide)
+  have vl : EncValue (.list (.time (.secIndex 7))) [0x72, 0x62, 0x01, 0x65, 0, 0, 0, 7] :=
+    Gram.mk_value_list [0x72] _ _ rfl (Gram.mk_listType _ _ _ sample_one tm)
+  exact Gram.mk_listEntry (x := sampleEntry3) (tl := [0x77]) rfl nm (Gram.mk_none _)
+    (Gram.mk_none _) (Gram.mk_none _) (Gram.mk_none _) vl (Gram.mk_none _)
+
+theorem sample_list_enc : EncMessage sampleList listBytes := by
+  have o1 : EncOctet [1, 2, 3, 5] [0x05, 1, 2, 3, 5] := Gram.mk_octet [0x05] _ rfl
+  have tag : EncUnsigned 4 0x0701 [0x63, 0x07, 0x01] :=
+    Gram.mk_unsigned 4 _ [0x63] [0x07, 0x01] rfl (by decide) (by decide) (by decide)
+  have ln : EncOctet [1, 0, 0x62, 0x0a, 0xff, 0xff] [0x07, 1, 0, 0x62, 0x0a, 0xff, 0xff] :=
+    Gram.mk_octet [0x07] _ rfl
+  have tm : EncTime (.secIndex 66051) [0x65, 0, 1, 2, 3] :=
+    Gram.mk_time_workaround 66051 [0x65] [0, 1, 2, 3] rfl rfl (by decide)
+  have vs : EncValList [sampleEntry1, sampleEntry2, sampleEntry3] _ :=
+    Gram.mk_valList (tl := [0x73]) rfl
+      (.cons sample_entry1_enc (.cons sample_entry2_enc (.cons sample_entry3_enc .nil)))
+  have body : EncGetListResponse sampleListRes _ :=
+    Gram.mk_getListResponse (tl := [0x77]) rfl (Gram.mk_none _) sample_server
+      (Gram.mk_some ln (by decide)) (Gram.mk_some tm (by decide)) vs (Gram.mk_none _)
+      (Gram.mk_none _)
+  have head : EncMessageHead sampleList _ :=
+    Gram.mk_messageHead (tl := [0x76]) rfl o1 sample_zero sample_zero
+      (Gram.mk_body_getList (tl := [0x72]) rfl tag body)
+  exact Gram.mk_message head (Gram.mk_crc _ 0x6e 0x3f (by decide +kernel))
+
+theorem sample_close_enc : EncMessage sampleClose closeBytes := by
+  have o1 : EncOctet [1, 2, 3, 6] [0x05, 1, 2, 3, 6] := Gram.mk_octet [0x05] _ rfl
+  have tag : EncUnsigned 4 0x0201 [0x63, 0x02, 0x01] :=
+    Gram.mk_unsigned 4 _ [0x63] [0x02, 0x01] rfl (by decide) (by decide) (by decide)
+  have body : EncCloseResponse ⟨none⟩ _ :=
+    Gram.mk_closeResponse (tl := [0x71]) rfl (Gram.mk_none _)
+  have head : EncMessageHead sampleClose _ :=
+    Gram.mk_messageHead (tl := [0x76]) rfl o1 sample_zero sample_zero
+      (Gram.mk_body_close (tl := [0x72]) rfl tag body)
+  exact Gram.mk_message head (Gram.mk_crc _ 0x32 0x1f (by decide +kernel))
+
+/-- the second encoding of the same close message (multi-byte TLFs everywhere) -/
+theorem sample_close_enc' : EncMessage sampleClose closeBytes' := by
+  have o1 : EncOctet [1, 2, 3, 6] [0x80, 0x06, 1, 2, 3, 6] := Gram.mk_octet [0x80, 0x06] _ rfl
+  have z' : EncUnsigned 1 0 [0xe0, 0x03, 0] :=
+    Gram.mk_unsigned 1 0 [0xe0, 0x03] [0] rfl (by decide) (by decide) (by decide)
+  have tag : EncUnsigned 4 0x0201 [0x63, 0x02, 0x01] :=
+    Gram.mk_unsigned 4 _ [0x63] [0x02, 0x01] rfl (by decide) (by decide) (by decide)
+  have body : EncCloseResponse ⟨none⟩ _ :=
+    Gram.mk_closeResponse (tl := [0x71]) rfl (Gram.mk_none _)
+  have head : EncMessageHead sampleClose _ :=
+    Gram.mk_messageHead (tl := [0xf0, 0x06]) rfl o1 z' sample_zero
+      (Gram.mk_body_close (tl := [0x72]) rfl tag body)
+  exact Gram.mk_message head (Gram.mk_crc _ 0x0c 0xc3 (by decide +kernel))
+
+/-- the hypothesis of `complete` is satisfiable by a non-trivial file: three messages, three list
+    entries, multi-byte and non-minimal TLFs, both time encodings, I16 in 2 bytes, U32 in 3 bytes -/
+theorem sample_file_enc : EncFile sampleFile sampleBytes :=
+  Gram.mk_file (.cons sample_open_enc (.cons sample_list_enc (.cons sample_close_enc .nil)))
+
+/-- ... and by a second, different encoding of the same file -/
+theorem sample_file_enc' : EncFile sampleFile (openBytes ++ listBytes ++ closeBytes') :=
+  Gram.mk_file (.cons sample_open_enc (.cons sample_list_enc (.cons sample_close_enc' .nil)))
+
+-- the conclusions, evaluated independently of the theorems
+example : parseFile sampleBytes = .ok sampleFile := by decide +kernel
+example : parseFile (openBytes ++ listBytes ++ closeBytes') = .ok sampleFile := by decide +kernel
+example : sampleBytes ≠ openBytes ++ listBytes ++ closeBytes' := by decide
+example : sampleBytes.length = 157 := by decide
+-- streaming parser: 1 + (1 + 3 + 1) + 1 events, reassembled to the three messages
+example : (C09.events sampleBytes).length = 7 := by decide +kernel
+example : ((C09.evsOf (C09.events sampleBytes)).bind reassemble) = some sampleFile.messages := by
+  decide +kernel
+-- instances of the theorems
+example : parseFile sampleBytes = .ok sampleFile := complete _ _ sample_file_enc
+example : parseMessage (closeBytes' ++ [0xde, 0xad]) = .ok (sampleClose, [0xde, 0xad]) :=
+  complete_message _ _ _ sample_close_enc'
 
 end Sml.C03
